@@ -40,6 +40,7 @@ var shapePaths = map[string]string{
 	"altOfAlt": "(ex.p | ex.q) | (ex.r | ex.p^)", "underscore": "ex.has_name / ex.x_y_z",
 	"seqThenAltMixed": "ex.p / (ex.q^ | ex.r)", "seqThenAltMixedRev": "ex.p / (ex.r | ex.q^)",
 	"seq2ThenAltMixed": "ex.p / ex.q / (ex.r^ | ex.p)", "seq2ThenAltMixedRev": "ex.p / ex.q / (ex.p | ex.r^)",
+	"seq24":    strings.TrimSuffix(strings.Repeat("ex.p / ex.q / ex.other / ", 8), " / "),
 }
 
 // regular expressions a profile may legitimately use (the pattern is pasted into the policy by the translator)
@@ -145,7 +146,7 @@ func renderShape(c shapeCase) string {
 		}
 		vals[name] = val
 	}
-	doc := map[string]any{"profile": "Shape " + c.ID, "prefixes": map[string]any{"ex": exNS}, "validations": vals}
+	doc := map[string]any{"profile": "Shape Validación de APIs 規則 ÉCOLE " + c.ID, "prefixes": map[string]any{"ex": exNS}, "validations": vals}
 	for l, ns := range levels {
 		doc[l] = ns
 	}
